@@ -204,8 +204,10 @@ Definition dec_hlabel (l : list Z) : hlabel :=
   else if Z.eqb k 1 then HInteract (zn (nthz l 1)) (zn (nthz l 2))
   else if Z.eqb k 2 then HReturn (zn (nthz l 1))
   (* flags: 1 = reported as broken (r2d2 has_broken / a dangling diesel transaction), 2 = fails its validity
-     check, 4 = diesel's transaction manager in its error state - broken as well *)
-  else if Z.eqb k 3 then HScript (zn (nthz l 1)) (Z.odd (nthz l 2) || Z.odd (Z.div2 (Z.div2 (nthz l 2))))
+     check, 4 = diesel's transaction manager in its error state - broken as well, 8 = r2d2's has_broken
+     panics (the interaction fails: rejected like a broken connection, is_valid is not reached) *)
+  else if Z.eqb k 3 then HScript (zn (nthz l 1)) (Z.odd (nthz l 2) || Z.odd (Z.div2 (Z.div2 (nthz l 2)))
+                                                   || Z.odd (Z.div2 (Z.div2 (Z.div2 (nthz l 2)))))
                                  (Z.odd (Z.div2 (nthz l 2)))
   else HTry.
 
